@@ -280,9 +280,7 @@ def transpileS (env : TEnv) : Nat → Structure → Except TErr (List PyStmt × 
       pure (lambdaTemplate (digitsOfNat k) (arityExpr ar) (orPass b), k1)
   | k, .lamOp kind body => do
       let (b, k1) ← transpileL env (k + 1) body
-      let after : Str := match kind with
-        | .lmap => [77] | .lfilter => [70] | _ => [7777]
-      let a ← transpileToken env ⟨.general, after⟩
+      let a ← transpileToken env ⟨.general, lamOpKey kind⟩
       pure (lambdaTemplate (digitsOfNat k) (.cint 1) (orPass b) ++ a, k1)
   | k, .listS items => do
       let (is, k1) ← transpileLL env k items
